@@ -184,6 +184,8 @@ func (c *AtlasClient) downloadClusterLogsForHost(ctx context.Context, publicKey,
 
 	_, err = io.Copy(tmpFile, resp.Body)
 	if err != nil {
+		// the partial download is raw, unredacted log data: do not leave it behind
+		_ = os.Remove(tmpFile.Name())
 		return "", fmt.Errorf("failed to write log to temp file: %w", err)
 	}
 
